@@ -31,6 +31,7 @@ from vlib.flow import load_corpus
 from commonroad.common.file_reader import CommonRoadFileReader
 from commonroad.common.file_writer import CommonRoadFileWriter, OverwriteExistingFile
 from commonroad.common.util import FileFormat
+from commonroad.scenario.lanelet import Lanelet
 from commonroad.scenario.obstacle import DynamicObstacle, ObstacleType, StaticObstacle
 from commonroad.scenario.scenario import Tag
 from commonroad.scenario.state import InitialState
@@ -38,28 +39,56 @@ from commonroad.geometry.shape import Rectangle
 
 logging.getLogger("commonroad").setLevel(logging.ERROR)
 
-RULE = ("histories from one seeded PRNG: 1..4 writers (re-construction of a writer id allowed) over 3 generated scenarios "
-        "(lanelet strips with signs / lights / intersection, static, dynamic, set-based, environment obstacles, one "
-        "obstacle with 15-digit coordinates so that every precision 1..12 renders differently), both formats, two "
-        "argument variants, 1..6 write_to_file / write_scenario_to_file calls on <= 3 shared paths with modes ALWAYS / "
-        "SKIP / ASK(y|n); one third of the histories are the targeted shapes 'same writer twice', 'other precision in "
-        "between', 'other format in between', 'skip on existing'.  distinct = distinct case dicts; non-trivial = at "
-        "least one file written")
+RULE = ("histories from one seeded PRNG, each executed in a process of its own forked from an interpreter that has only "
+        "imported the library: 1..4 writers (re-construction of a writer id allowed) over 3 generated scenarios (lanelet "
+        "strips with signs / lights / intersection, one lanelet with 15-digit vertices that all three scenarios share "
+        "and one of its own, static, dynamic, set-based, environment obstacles, one obstacle with 15-digit coordinates, "
+        "so that every precision 1..12 renders every kind of number differently), both formats, two argument "
+        "variants, 1..6 (one history in 16: 7..14) write_to_file / write_scenario_to_file calls on <= 3 of the 9 file "
+        "names file{0,1,2}{,.xml,.pb} (names with and without the format suffix, siblings 'fileN' / 'fileN<suffix>' "
+        "preferred) with modes ALWAYS / SKIP / ASK(y|n); one third of the histories are the targeted shapes 'same "
+        "writer twice', 'other precision in between', 'other format in between', 'skip on existing / missing', "
+        "'identical writers interleaved', 're-construction', 'same scenario under two precisions', 'skip next to a "
+        "sibling name'.  distinct = distinct case dicts; non-trivial = at least one write call")
 ASSUME = ["the date stamp is excluded (XML root attribute date; protobuf information.date)",
-          "render (what one fresh writer writes once) is abstract in the model; the oracle obtains it from the "
-          "implementation itself before each history",
+          "render (what one fresh writer writes once) is abstract in the model; the oracle obtains every reference "
+          "from the implementation itself, each in a process of its own that has never constructed or used another "
+          "writer (forked from a helper that only imported the library and built the scenarios)",
+          "'reads back to the same scenario': same ids, and lanelet boundary vertices, obstacle and planning-problem "
+          "initial positions within 10^-precision (XML text is cut to that many decimals; protobuf: 1e-9)",
+          "which file name a call writes to is not part of the statement: the oracle judges the file(s) a call "
+          "creates or rewrites wherever they are (the model / correspondence do fix the name); SKIP is judged on every "
+          "file that exists in the directory when the call starts",
           "static obstacles carry an explicit empty signal_series and goal regions no lanelet references, so that the "
           "protobuf writer accepts the scenarios (its failures on None / partial dicts belong to C02 / C18)"]
 
 MODES = ["always", "skip", "ask_y", "ask_n"]
 SAFE_ROLES = ["dynamic", "dynamic", "dynamic_set", "dynamic_none", "env"]
 XML_DATE = re.compile(rb'(<commonRoad\b[^>]*?\sdate=")[^"]*(")')
+SUFFIXES = ["", ".xml", ".pb"]
+N_PATHS = 9
+PLANTED_NS = 1_000_000_000
+
+
+def name_of(pi):
+    """file name of path index pi: 0..2 'fileN', 3..5 'fileN.xml', 6..8 'fileN.pb'"""
+    return f"file{pi % 3}{SUFFIXES[(pi // 3) % 3]}"
+
+
+INDEX_OF = {name_of(i): i for i in range(N_PATHS)}
 
 
 # ------------------------------------------------------------------------------------ scenarios
+def _fine_lanelet(lid, xs, y_right, y_left):
+    right = np.array([[x, y_right] for x in xs])
+    left = np.array([[x, y_left] for x in xs])
+    return Lanelet(left, (left + right) / 2.0, right, lid)
+
+
 def build_world(scen_seed):
     """the 3 (scenario, planning problem set) pairs of a case, rebuilt from its sub-seed"""
     rng = random.Random(scen_seed)
+    shared_xs = [rng.uniform(-1, 1) + 10 * j for j in range(3)]  # 15-17 significant digits, same in all 3 scenarios
     out = []
     for i in range(3):
         sc = scen.rand_scenario(rng, n_obstacles=rng.randint(1, 3), roles=SAFE_ROLES)
@@ -70,6 +99,9 @@ def build_world(scen_seed):
         st = InitialState(time_step=0, position=np.array([3 * math.pi + i, math.e]), orientation=math.sqrt(2) / 2,
                           velocity=math.pi / 3, acceleration=0.0, yaw_rate=0.0, slip_angle=0.0)
         sc.add_objects(DynamicObstacle(710, ObstacleType.CAR, Rectangle(4.123456789012, 1.8), st, None))
+        # the same for lanelet boundaries: one lanelet whose vertex values all scenarios of the case share, one of its own
+        sc.add_objects(_fine_lanelet(80, shared_xs, 60 + math.sqrt(2), 63 + math.e))
+        sc.add_objects(_fine_lanelet(81, [rng.uniform(0, 30) for _ in range(2)], 70 + rng.random(), 73 + rng.random()))
         sc.author, sc.affiliation, sc.source = f"author{i}", f"affiliation{i}", f"source{i}"
         sc.tags = {Tag.URBAN, Tag.HIGHWAY} if i % 2 == 0 else {Tag.INTERSECTION}
         pps = scen.rand_planning_problem_set(rng, first_id=900 + 10 * i)
@@ -103,8 +135,11 @@ def normalise(fmt, data):
     return b"PB" + msg.SerializeToString(deterministic=True)
 
 
-def path_of(d, fmt_hint, pi):
-    return os.path.join(d, f"file{pi}")
+def try_normalise(fmt, data):
+    try:
+        return normalise(fmt, data)
+    except Exception:  # noqa  (not even parseable as the writer's own format)
+        return data
 
 
 @contextlib.contextmanager
@@ -130,28 +165,100 @@ def call_write(w, kind, path, mode):
 
 
 def snapshot_dir(d):
+    """{file name: bytes} of the regular files of the directory"""
     out = {}
     for fn in sorted(os.listdir(d)):
-        if fn.startswith("file"):
-            with open(os.path.join(d, fn), "rb") as f:
-                out[int(fn[4:])] = f.read()
+        p = os.path.join(d, fn)
+        if os.path.isfile(p):
+            with open(p, "rb") as f:
+                out[fn] = f.read()
     return out
 
 
-def references(world, case, d):
-    """{(fmt, si, prec, variant, with_pps): normalised bytes} for every writer configuration of the case, each from one
-    fresh writer writing once (computed before the history starts)"""
-    refs = {}
+# ------------------------------------------------------------------------------------ references without history
+class Pristine:
+    """Reference renderings that cannot depend on what happened in this process: a helper is forked NOW (the calling
+    process has imported the library and built the scenarios, but never constructed a writer) and forks one child per
+    request; the child constructs one writer, writes once into an empty directory and exits.  The helper itself never
+    touches a writer, so a request made after the history has run is answered from the same clean state."""
+
+    def __init__(self, world, d):
+        self.d = d
+        self.n = 0
+        req_r, req_w = os.pipe()
+        ans_r, ans_w = os.pipe()
+        self.pid = os.fork()
+        if self.pid == 0:
+            code = 0
+            try:
+                os.close(req_w)
+                os.close(ans_r)
+                self._serve(world, req_r, ans_w)
+            except BaseException:  # noqa
+                code = 4
+            finally:
+                os._exit(code)
+        os.close(req_r)
+        os.close(ans_w)
+        self.req_w, self.ans_r = req_w, ans_r
+
+    @staticmethod
+    def _serve(world, req_r, ans_w):
+        with os.fdopen(req_r, "r") as f:
+            for line in f:
+                fmt, prec, si, variant, with_pps, sub = json.loads(line)
+                pid = os.fork()
+                if pid == 0:
+                    code = 0
+                    try:
+                        w = new_writer(world, fmt, prec, si, variant)
+                        call_write(w, "write" if with_pps else "write_scenario", os.path.join(sub, "out"), "always")
+                    except BaseException as e:  # noqa  (a writer that fails is an observation, judged by the caller)
+                        code = 3
+                        with open(sub + ".exc", "w") as g:
+                            g.write(type(e).__name__)
+                    finally:
+                        os._exit(code)
+                os.waitpid(pid, 0)
+                os.write(ans_w, b".")
+
+    def render(self, fmt, prec, si, variant, with_pps):
+        """('ok', normalised bytes) | ('exc', name) | ('files', [names]) (no file or several files written)"""
+        sub = os.path.join(self.d, f"ref{self.n}")
+        self.n += 1
+        os.makedirs(sub)
+        os.write(self.req_w, (json.dumps([fmt, prec, si, variant, with_pps, sub]) + "\n").encode())
+        if os.read(self.ans_r, 1) != b".":
+            raise RuntimeError("C15: the reference helper process died")
+        try:
+            if os.path.exists(sub + ".exc"):
+                with open(sub + ".exc") as f:
+                    return ("exc", f.read())
+            files = snapshot_dir(sub)
+            if len(files) != 1:
+                return ("files", sorted(files))
+            return ("ok", normalise(fmt, next(iter(files.values()))))
+        finally:
+            shutil.rmtree(sub, ignore_errors=True)
+
+    def close(self):
+        os.close(self.req_w)
+        os.close(self.ans_r)
+        os.waitpid(self.pid, 0)
+
+
+def references(pristine, case):
+    """{(fmt, si, prec, variant, with_pps): normalised bytes | None} for every writer configuration of the case;
+    second component: [(conf, with_pps, outcome)] of the references that could not be produced"""
+    refs, failed = {}, []
     confs = sorted({(op[2], op[4], op[3], op[5]) for op in case["ops"] if op[0] == "new"})
     for fmt, si, prec, variant in confs:
         for pps in (True, False):
-            w = new_writer(world, fmt, prec, si, variant)
-            p = os.path.join(d, "ref")
-            call_write(w, "write" if pps else "write_scenario", p, "always")
-            with open(p, "rb") as f:
-                refs[(fmt, si, prec, variant, pps)] = normalise(fmt, f.read())
-            os.remove(p)
-    return refs
+            r = pristine.render(fmt, prec, si, variant, pps)
+            refs[(fmt, si, prec, variant, pps)] = r[1] if r[0] == "ok" else None
+            if r[0] != "ok":
+                failed.append(((fmt, si, prec, variant), pps, r))
+    return refs, failed
 
 
 def guess_fmt(data):
@@ -168,39 +275,88 @@ def ids_of(sc, pps):
             "problems": sorted(pps.planning_problem_dict) if pps is not None else []}
 
 
+def coords_of(sc, pps):
+    """{what: float array} of the coordinates the read-back comparison covers"""
+    out = {}
+    for la in sc.lanelet_network.lanelets:
+        out[f"lanelet {la.lanelet_id} left bound"] = np.asarray(la.left_vertices, dtype=float)
+        out[f"lanelet {la.lanelet_id} right bound"] = np.asarray(la.right_vertices, dtype=float)
+    for o in sc.obstacles:
+        p = getattr(getattr(o, "initial_state", None), "position", None)
+        if isinstance(p, np.ndarray):
+            out[f"obstacle {o.obstacle_id} initial position"] = np.asarray(p, dtype=float)
+    if pps is not None:
+        for pid, pp in pps.planning_problem_dict.items():
+            p = getattr(pp.initial_state, "position", None)
+            if isinstance(p, np.ndarray):
+                out[f"planning problem {pid} initial position"] = np.asarray(p, dtype=float)
+    return out
+
+
+def coords_deviation(exp, got, tol):
+    """None | text: the first coordinate array read back that is further than tol from what was written"""
+    for k in sorted(exp):
+        if k not in got:
+            continue  # a missing object is the business of the id comparison
+        a, b = exp[k], got[k]
+        if a.shape != b.shape:
+            return f"{k}: shape {b.shape} instead of {a.shape}"
+        if a.size and float(np.max(np.abs(a - b))) > tol:
+            i = int(np.argmax(np.abs(a - b)))
+            return f"{k}: {b.flat[i]!r} read back for {a.flat[i]!r} (allowed deviation {tol:.3g})"
+    return None
+
+
 def read_back(path, fmt):
-    """('ok', ids) | ('exc', name)"""
+    """('ok', ids, coords) | ('exc', name)"""
     try:
         with quiet():
             sc, pps = CommonRoadFileReader(path, FileFormat.XML if fmt == "xml" else FileFormat.PROTOBUF).open()
-        return ("ok", ids_of(sc, pps))
+        return ("ok", ids_of(sc, pps), coords_of(sc, pps))
     except Exception as e:  # noqa  (a file that cannot be read back is an observation)
         return ("exc", type(e).__name__)
 
 
 # ------------------------------------------------------------------------------------ running a history
-def run_history(case):
-    """executes the case; returns dict(steps=[...], final={path: bytes}, refs, violations=[(signature, what)])"""
+def run_history_here(case):
+    """executes the case IN THIS PROCESS (meant to be called in a process that has not used a writer before, see
+    run_isolated); returns dict(steps=[...], final={path: tokens}, violations=[(signature, what)])"""
     d = tempfile.mkdtemp(prefix="c15-", dir=os.environ.get("VERIF_TMP", "/var/tmp"))
+    pristine = None
     try:
-        return _run_history(case, d)
+        world = build_world(case["scen_seed"])
+        pristine = Pristine(world, d)
+        return _run_history(case, world, pristine, os.path.join(d, "h"))
     finally:
+        if pristine is not None:
+            pristine.close()
         shutil.rmtree(d, ignore_errors=True)
 
 
-def _run_history(case, d):
-    world = build_world(case["scen_seed"])
+def _run_history(case, world, pristine, d):
+    os.makedirs(d)
     expect_ids = [ids_of(sc, pps) for sc, pps in world]
-    refs = references(world, case, d)
+    expect_coords = [coords_of(sc, pps) for sc, pps in world]
+    refs, ref_failed = references(pristine, case)
     by_bytes = {}
     for k, v in refs.items():
-        by_bytes.setdefault(v, []).append(k)
+        if v is not None:
+            by_bytes.setdefault(v, []).append(k)
     writers, conf, wrote_before, news_since = {}, {}, {}, {}
     steps, viol = [], []
     readback_done = set()
 
     def bad(sig, what):
         viol.append((sig, what))
+
+    for (fmt, si, prec, variant), pps, r in ref_failed:
+        knd = "write" if pps else "write_scenario"
+        desc = f"a fresh writer ({fmt} scenario {si} precision {prec} variant {variant}) calling {knd} once"
+        if r[0] == "exc":
+            bad(f"{fmt}:{knd}:raises:{r[1]}", f"{desc} raises {r[1]}")
+        else:
+            bad(f"{fmt}:{knd}:not-written" if not r[1] else f"{fmt}:{knd}:other-file-changed",
+                f"{desc} on a new name in an empty directory leaves the files {r[1]}")
 
     for idx, op in enumerate(case["ops"]):
         if op[0] == "new":
@@ -218,57 +374,67 @@ def _run_history(case, d):
             steps.append({"obs": "nowriter"})
             continue
         fmt, si, prec, variant = conf[w]
-        path = path_of(d, fmt, pi)
+        name = name_of(pi)
+        path = os.path.join(d, name)
         before = snapshot_dir(d)
-        existed = pi in before
-        if existed:
-            os.utime(path, ns=(1_000_000_000, 1_000_000_000))
+        existed = name in before
+        for fn in before:
+            os.utime(os.path.join(d, fn), ns=(PLANTED_NS, PLANTED_NS))
         try:
             call_write(writers[w], kind, path, mode)
             exc = None
         except Exception as e:  # noqa
             exc = type(e).__name__
         after = snapshot_dir(d)
-        if existed:  # (re)written iff the time stamp planted above is gone
-            touched = not os.path.exists(path) or os.stat(path).st_mtime_ns != 1_000_000_000
-        else:
-            touched = pi in after
+        # (re)written = new, gone, or the time stamp planted above is gone
+        touched = sorted(fn for fn in set(before) | set(after)
+                         if fn not in before or fn not in after
+                         or os.stat(os.path.join(d, fn)).st_mtime_ns != PLANTED_NS)
         changed = sorted(k for k in set(before) | set(after) if before.get(k) != after.get(k))
+        hit_existing = sorted(fn for fn in set(touched) | set(changed) if fn in before)
         with_pps = kind == "write"
         must_skip = existed and mode in ("skip", "ask_n")
-        desc = f"op {idx} {kind}(writer {w}: {fmt} scenario {si} precision {prec} variant {variant}, file{pi}, {mode})"
+        desc = f"op {idx} {kind}(writer {w}: {fmt} scenario {si} precision {prec} variant {variant}, {name}, {mode})"
         if exc is not None:
             bad(f"{fmt}:{kind}:raises:{exc}", f"{desc} raises {exc}")
             steps.append({"obs": "other"})
             continue
         if must_skip:
             if changed or touched:
-                bad(f"{fmt}:{kind}:skip:file-changed", f"{desc}: existing file was modified although the call must skip")
+                bad(f"{fmt}:{kind}:skip:file-changed", f"{desc}: existing file was modified although the call must skip "
+                    f"(files created / rewritten: {sorted(set(touched) | set(changed))})")
             steps.append({"obs": "skipped" if not touched else "other"})
             continue
-        others = [k for k in changed if k != pi]
-        if others:
-            bad(f"{fmt}:{kind}:other-file-changed", f"{desc} changed file(s) {others}")
-        if pi not in after:
+        if mode == "skip" and hit_existing:
+            # the name given does not exist, so the call may write - but not over a file that does exist
+            bad(f"{fmt}:{kind}:skip:file-changed", f"{desc}: called with overwrite mode SKIP, the existing file(s) "
+                f"{hit_existing} were rewritten")
+        if not touched:
             bad(f"{fmt}:{kind}:not-written", f"{desc} wrote nothing")
             steps.append({"obs": "other"})
             continue
-        try:
-            got = normalise(fmt, after[pi])
-        except Exception:  # noqa  (not even parseable as the writer's own format)
-            got = after[pi]
+        # the file the call wrote: the one it was given, or else the only one it created / rewrote
+        target = name if name in touched else (touched[0] if len(touched) == 1 else None)
+        others = [k for k in sorted(set(touched) | set(changed)) if k != target]
+        if others or target is None:
+            bad(f"{fmt}:{kind}:other-file-changed", f"{desc} changed file(s) {others or touched}")
+        if target is None or target not in after:
+            steps.append({"obs": "other"})
+            continue
+        got = try_normalise(fmt, after[target])
         want = refs[(fmt, si, prec, variant, with_pps)]
         toks = by_bytes.get(got, [])
-        steps.append({"obs": "written" if touched and not others else "other", "path": pi, "toks": toks})
-        if got != want:
+        steps.append({"obs": "written" if not others and target in INDEX_OF else "other",
+                      "path": INDEX_OF.get(target, 0), "toks": toks})
+        if want is not None and got != want:
             # classify the deviation (signature = input shape / call site)
             other_prec = [k for k in toks if k[0] == fmt and k[1] == si and k[3] == variant and k[4] == with_pps
                           and k[2] != prec]
             if not other_prec and fmt == "xml":
                 # bytes of the same inputs under another precision that no writer of the case asked for?
                 other_prec = [p for f2, p in news_since[w] if p != prec]
-                other_prec = other_prec if _matches_other_precision(world, fmt, si, variant, with_pps, got, other_prec,
-                                                                    d) else []
+                other_prec = other_prec if _matches_other_precision(pristine, fmt, si, variant, with_pps, got,
+                                                                    other_prec) else []
             if other_prec:
                 bad(f"{fmt}:{kind}:precision-of-another-writer",
                     f"{desc}: content is rendered with the precision of a writer constructed later "
@@ -279,96 +445,210 @@ def _run_history(case, d):
                     f"elements, a fresh identical writer emits {want.count(b'<lanelet ')}")
             else:
                 bad(f"{fmt}:{kind}:content-differs:{'rewrite' if wrote_before[w] else 'first-write'}",
-                    f"{desc}: content differs from what a fresh identical writer emits "
-                    f"({len(got)} vs {len(want)} bytes)")
+                    f"{desc}: content differs from what a fresh identical writer emits in a process where no other "
+                    f"writer was ever used ({len(got)} vs {len(want)} bytes{_first_difference(fmt, got, want)})")
         wrote_before[w] += 1
         # read back once per distinct content
         key = (fmt, got)
         if key not in readback_done:
             readback_done.add(key)
-            rb = read_back(path, fmt)
+            rb = read_back(os.path.join(d, target), fmt)
             exp = dict(expect_ids[si])
+            exp_c = dict(expect_coords[si])
             if not with_pps:
                 exp["problems"] = []
+                exp_c = {k: v for k, v in exp_c.items() if not k.startswith("planning problem")}
             if rb[0] == "exc":
                 bad(f"{fmt}:{kind}:readback:raises:{rb[1]}", f"{desc}: the written file cannot be read back ({rb[1]})")
             elif rb[1] != exp:
                 diff = [k for k in exp if exp[k] != rb[1][k]]
                 bad(f"{fmt}:{kind}:readback:{'+'.join(diff)}", f"{desc}: the file reads back with other ids ({diff}): "
                     f"{ {k: rb[1][k] for k in diff} } instead of { {k: exp[k] for k in diff} }")
+            else:
+                tol = 1.0001 * 10.0 ** -prec + 1e-13 if fmt == "xml" else 1e-9
+                dev = coords_deviation(exp_c, rb[2], tol)
+                if dev:
+                    bad(f"{fmt}:{kind}:readback:coordinates", f"{desc}: the file does not read back to the scenario "
+                        f"written, {dev}")
     final = snapshot_dir(d)
     final_toks = {}
-    for pi, data in final.items():
-        f = guess_fmt(data)
-        try:
-            final_toks[pi] = by_bytes.get(normalise(f, data), [])
-        except Exception:  # noqa
-            final_toks[pi] = []
+    for fn, data in final.items():
+        pi = INDEX_OF.get(fn, 1000 + len(final_toks))
+        final_toks[pi] = by_bytes.get(try_normalise(guess_fmt(data), data), [])
     return {"steps": steps, "final": final_toks, "violations": viol}
 
 
-def _matches_other_precision(world, fmt, si, variant, with_pps, got, precs, d):
+def _first_difference(fmt, got, want):
+    if fmt != "xml":
+        return ""
+    for a, b in zip(got.splitlines(), want.splitlines()):
+        if a != b:
+            return f"; first differing line {a.strip()[:60]!r} instead of {b.strip()[:60]!r}"
+    return ""
+
+
+def _matches_other_precision(pristine, fmt, si, variant, with_pps, got, precs):
     """does [got] equal the rendering of the same inputs under one of [precs]?  (diagnosis only, after a failure)"""
-    for p in precs:
-        w = new_writer(world, fmt, p, si, variant)
-        path = os.path.join(d, "ref2")
-        call_write(w, "write" if with_pps else "write_scenario", path, "always")
-        with open(path, "rb") as f:
-            data = normalise(fmt, f.read())
-        os.remove(path)
-        if data == got:
+    for p in sorted(set(precs)):
+        r = pristine.render(fmt, p, si, variant, with_pps)
+        if r[0] == "ok" and r[1] == got:
             return True
     return False
 
 
+# ------------------------------------------------------------------------------------ one process per history
+_MP = None
+JOBS = max(2, min(8, (os.cpu_count() or 4) // 2))
+CASE_TIMEOUT = 300
+
+
+def _mp():
+    """forkserver: its server process is a new interpreter that imports this module (hence the library) and nothing
+    else; every history runs in a child forked from it, i.e. in a process without any writer history - the same
+    situation as a --replay of the case"""
+    global _MP
+    if _MP is None:
+        _MP = multiprocessing.get_context("forkserver")
+        _MP.set_forkserver_preload(["props.c15"])
+    return _MP
+
+
+def _child(case, conn):
+    try:
+        conn.send(("ok", run_history_here(case)))
+    except BaseException:  # noqa  (reported to the parent, which lets it propagate as a crash of the harness)
+        conn.send(("crash", traceback.format_exc()))
+    finally:
+        conn.close()
+
+
+def run_isolated(cases, jobs=JOBS):
+    """yields run_history_here(case) for every case, in order; each case in a process of its own"""
+    mp = _mp()
+    todo = list(enumerate(cases))[::-1]
+    running, done, nxt = {}, {}, 0
+    try:
+        while todo or running or done:
+            while todo and len(running) < jobs and len(done) < 4 * jobs:
+                i, c = todo.pop()
+                rx, tx = mp.Pipe(duplex=False)
+                p = mp.Process(target=_child, args=(c, tx), daemon=True)
+                p.start()
+                tx.close()
+                running[rx] = (i, p)
+            ready = multiprocessing.connection.wait(list(running), timeout=CASE_TIMEOUT) if running else []
+            if running and not ready:
+                raise RuntimeError(f"C15: no history finished within {CASE_TIMEOUT}s "
+                                   f"(cases {[i for i, _ in running.values()]})")
+            for rx in ready:
+                i, p = running.pop(rx)
+                try:
+                    tag, val = rx.recv()
+                except EOFError:
+                    tag, val = "crash", f"the process of case {i} died without a result (exit code {p.exitcode})"
+                rx.close()
+                p.join()
+                if tag != "ok":
+                    raise RuntimeError(f"C15: harness failure in the process of case {i}:\n{val}")
+                done[i] = val
+            while nxt in done:
+                yield done.pop(nxt)
+                nxt += 1
+    finally:
+        for rx, (i, p) in running.items():
+            p.kill()
+            p.join()
+            rx.close()
+
+
+def run_history(case):
+    return next(run_isolated([case], jobs=1))
+
+
 # ------------------------------------------------------------------------------------ generators
+def pick_paths(rng):
+    """1..3 of the 9 file names; siblings ('fileN' and 'fileN<suffix>') preferred, since only names that differ in the
+    format suffix can be confused with one another"""
+    n = rng.randint(1, 3)
+    r = rng.random()
+    if r < 0.4:  # plain names only
+        return rng.sample(range(3), n)
+    if r < 0.8:  # one base name in several spellings (+ maybe another base)
+        base = rng.randint(0, 2)
+        pool = [base, base + 3, base + 6]
+        out = rng.sample(pool, min(n, 3))
+        if n == 3 and rng.random() < 0.5:
+            out[-1] = rng.randrange(N_PATHS)
+        return sorted(set(out))
+    return rng.sample(range(N_PATHS), n)
+
+
 def rand_history(rng):
     nw = rng.randint(1, 4)
     ops = []
-    n_writes = rng.randint(1, 6)
-    paths = rng.randint(1, 3)
+    n_writes = rng.randint(1, 6) if rng.random() < 15 / 16 else rng.randint(7, 14)
+    paths = pick_paths(rng)
     alive = []
     fmt_bias = rng.choice(["xml", "xml", "pb", None])
+    same_scenario = rng.random() < 0.3  # several writers on one scenario (with different precisions)
+    s0 = rng.randint(0, 2)
     writes = 0
     while writes < n_writes:
         if not alive or (len(alive) < nw and rng.random() < 0.4) or rng.random() < 0.08:
             w = rng.choice([len(alive)] if len(alive) < nw else list(range(nw)))
             fmt = fmt_bias if fmt_bias and rng.random() < 0.7 else rng.choice(["xml", "pb"])
-            ops.append(["new", w, fmt, rng.randint(1, 12), rng.randint(0, 2), rng.choice([0, 0, 1])])
+            ops.append(["new", w, fmt, rng.randint(1, 12), s0 if same_scenario else rng.randint(0, 2),
+                        rng.choice([0, 0, 1])])
             if w not in alive:
                 alive.append(w)
         else:
-            ops.append([rng.choice(["write", "write", "write_scenario"]), rng.choice(alive), rng.randint(0, paths - 1),
+            ops.append([rng.choice(["write", "write", "write_scenario"]), rng.choice(alive), rng.choice(paths),
                         rng.choice(["always", "always", "always", "skip", "skip", "ask_y", "ask_n"])])
             writes += 1
     return ops
 
 
 def targeted_history(rng):
-    k = rng.randint(0, 5)
+    k = rng.randint(0, 7)
     fmt = rng.choice(["xml", "xml", "pb"])
     p, q = rng.sample(range(1, 13), 2)
     si, sj = rng.randint(0, 2), rng.randint(0, 2)
+    base = rng.randint(0, 2)
+    f0, f1, f2 = [(base + j) % 3 + 3 * rng.choice([0, 0, 1, 2]) for j in range(3)]  # three different base names
     if k == 0:  # same writer twice (same or other file)
-        return [["new", 0, fmt, p, si, 0], ["write", 0, 0, "always"], [rng.choice(["write", "write_scenario"]), 0,
-                                                                       rng.choice([0, 1]), "always"]]
+        return [["new", 0, fmt, p, si, 0], ["write", 0, f0, "always"], [rng.choice(["write", "write_scenario"]), 0,
+                                                                        rng.choice([f0, f1]), "always"]]
     if k == 1:  # another writer with a different precision constructed in between
-        return [["new", 0, fmt, p, si, 0], ["new", 1, rng.choice(["xml", "pb"]), q, sj, 0], ["write", 0, 0, "always"],
-                ["write", 1, 1, "always"]]
+        return [["new", 0, fmt, p, si, 0], ["new", 1, rng.choice(["xml", "pb"]), q, sj, 0], ["write", 0, f0, "always"],
+                ["write", 1, f1, "always"]]
     if k == 2:  # other format used in between
         other = "pb" if fmt == "xml" else "xml"
-        return [["new", 0, fmt, p, si, 1], ["write", 0, 0, "always"], ["new", 1, other, q, si, 0],
-                ["write", 1, 1, "always"], ["write", 0, 2, "always"]]
+        return [["new", 0, fmt, p, si, 1], ["write", 0, f0, "always"], ["new", 1, other, q, si, 0],
+                ["write", 1, f1, "always"], ["write", 0, f2, "always"]]
     if k == 3:  # skip on an existing / a missing file
-        return [["new", 0, fmt, p, si, 0], ["write", 0, 0, rng.choice(["skip", "ask_n"])], ["new", 1, fmt, q, sj, 0],
-                ["write", 1, 0, rng.choice(["skip", "ask_n"])], ["write_scenario", 1, 0, "skip"],
-                ["write", 1, 1, "skip"]]
+        return [["new", 0, fmt, p, si, 0], ["write", 0, f0, rng.choice(["skip", "ask_n"])], ["new", 1, fmt, q, sj, 0],
+                ["write", 1, f0, rng.choice(["skip", "ask_n"])], ["write_scenario", 1, f0, "skip"],
+                ["write", 1, f1, "skip"]]
     if k == 4:  # two identical writers, interleaved
-        return [["new", 0, fmt, p, si, 0], ["new", 1, fmt, p, si, 0], ["write", 0, 0, "always"],
-                ["write", 1, 1, "always"], ["write", 0, 1, "always"], ["write", 1, 0, "ask_y"]]
-    # scenario-only then full, then re-construction of the writer id
-    return [["new", 0, fmt, p, si, 0], ["write_scenario", 0, 0, "always"], ["write", 0, 1, "always"],
-            ["new", 0, fmt, q, sj, 1], ["write", 0, 0, "always"]]
+        return [["new", 0, fmt, p, si, 0], ["new", 1, fmt, p, si, 0], ["write", 0, f0, "always"],
+                ["write", 1, f1, "always"], ["write", 0, f1, "always"], ["write", 1, f0, "ask_y"]]
+    if k == 5:  # scenario-only then full, then re-construction of the writer id
+        return [["new", 0, fmt, p, si, 0], ["write_scenario", 0, f0, "always"], ["write", 0, f1, "always"],
+                ["new", 0, fmt, q, sj, 1], ["write", 0, f0, "always"]]
+    if k == 6:  # one scenario written under two precisions (either order of construction and use), then again
+        a, b = rng.sample([0, 1], 2)
+        return [["new", 0, fmt, p, si, 0], ["new", 1, fmt, q, si, rng.choice([0, 1])],
+                [rng.choice(["write", "write_scenario"]), a, f0, "always"],
+                [rng.choice(["write", "write_scenario"]), b, f1, "always"], ["write", a, f2, "always"]]
+    # sibling names: the same base name with and without a format suffix, written and then protected by SKIP / 'n'
+    sib = [base, base + 3, base + 6]
+    rng.shuffle(sib)
+    mode = rng.choice(["skip", "skip", "ask_n"])
+    return [["new", 0, fmt, p, si, 0], [rng.choice(["write", "write_scenario"]), 0, sib[0], "always"],
+            ["new", 1, rng.choice([fmt, fmt, "xml", "pb"]), q, sj, 1],
+            [rng.choice(["write", "write_scenario"]), 1, sib[1], mode],
+            [rng.choice(["write", "write_scenario"]), 1, sib[2], mode],
+            [rng.choice(["write", "write_scenario"]), 1, sib[0], mode]]
 
 
 def gen(rng, n):
@@ -385,7 +665,9 @@ def nontrivial(c):
 
 def kind(c):
     fm = sorted({op[2] for op in c["ops"] if op[0] == "new"})
-    return "+".join(fm) + f":writers={len({op[1] for op in c['ops'] if op[0] == 'new'})}"
+    names = {op[2] // 3 for op in c["ops"] if op[0] != "new"}
+    return ("+".join(fm) + f":writers={len({op[1] for op in c['ops'] if op[0] == 'new'})}"
+            + f":names={'plain' if names <= {0} else 'suffixed' if 0 not in names else 'mixed'}")
 
 
 # ------------------------------------------------------------------------------------ oracle
@@ -463,7 +745,8 @@ def run(ctx):
                    "hand-written model coq/Model/Writers.v of common/writer/file_writer_interface.py:10-14,32-56,142-160, "
                    "file_writer_xml.py:62-74,151-153,164-270, file_writer_protobuf.py:95,199-245, tied to the code by "
                    "coq/Corr/C15.v on every run; what a node / attribute / serialisation is stays abstract (render)",
-                   "harness/props/c15.py (history generator, byte comparison modulo the date stamp, Coq term printer)",
+                   "harness/props/c15.py (history generator, one process per history and per reference rendering, byte "
+                   "comparison modulo the date stamp, Coq term printer)",
                    "lxml / protobuf serialisation and the file system are outside the model"]
     ctx.build_props(extra_targets=EXTRA_TARGETS)
     if ctx.tier == "thorough":
@@ -473,9 +756,8 @@ def run(ctx):
     terms, owner = [], []
 
     def process(cs, with_corr=True):
-        for c in cs:
+        for c, r in zip(cs, run_isolated(cs)):
             ctx.count(c, nontrivial(c), kind(c))
-            r = run_history(c)
             for sig, what in r["violations"]:
                 ctx.fail(sig, what, c)
             if with_corr:
@@ -494,5 +776,7 @@ def run(ctx):
     ctx.log(f"corr cases={len(terms)} disagree={len(bad)} coq_errors={len(errors)}")
     if (ctx.proof_breaks or ctx.corr_breaks) and not ctx.failures:
         ctx.log(f"proof/correspondence broke ({len(ctx.proof_breaks)}/{len(ctx.corr_breaks)}); widening the search")
-        process(gen(ctx.rng, n * 3), with_corr=False)
+        process([b["case"] for b in ctx.corr_breaks if isinstance(b.get("case"), dict)], with_corr=False)
+        if not ctx.failures:
+            process(gen(ctx.rng, n * 3), with_corr=False)
     return ctx.finish(RULE, assumptions=ASSUME)
